@@ -1,7 +1,7 @@
 ---- MODULE ExportNull ----
 EXTENDS SpyneNull, Json, IOUtils, SequencesExt
 ASSUME TableLaw
-ASSUME JsonSerialize(IOEnv.OUT_FILE, [cases |-> SetToSeq({[style |-> c.style, ret |-> c.ret, modes |-> c.modes, rename |-> c.rename, dflt |-> c.dflt, aux |-> c.aux, ostr |-> c.ostr] : c \in (IF IOEnv.FAMILY = "thorough" THEN CasesThorough ELSE Cases)}),
+ASSUME JsonSerialize(IOEnv.OUT_FILE, [cases |-> SetToSeq({[style |-> c.style, ret |-> c.ret, modes |-> c.modes, rename |-> c.rename, dflt |-> c.dflt, aux |-> c.aux, narrow |-> c.narrow, ostr |-> c.ostr] : c \in (IF IOEnv.FAMILY = "thorough" THEN CasesThorough ELSE Cases)}),
                                       histories |-> SetToSeq(Histories)])
 VARIABLE x
 Init == x = 0
